@@ -21,6 +21,13 @@ PROPS = {
         "A1: os.urandom returns fresh bytes: 'two encryptions differ' is the proved fact 'the IV (first 16 bytes) is the fresh draw' plus this assumption",
         "A4 (NOT decided): decrypting under a different key never returns the original message -- a probabilistic property of AES/PKCS7, assumed",
     ], bounded=[], runtime_checks=[["crypto", "rt_iv_fresh"]]),
+    "C15": dict(modules=["fpe"], assumptions=A_ENGINE + [
+        "X4: hmac/hashlib are pure functions; hashlib.sha1().digest_size == 20",
+        "X5: struct.pack is a pure function of its arguments",
+        "L1 (Lean 4 + Mathlib, lemmas/L1.lean): (x ^^^ y) ^^^ y = x on Nat; link to Python's ^ is assumption S2",
+        "BitwiseFFX is used with its default digest (hashlib.sha1) and an even round count (class invariant; DEFAULT_ROUNDS is checked to be even)",
+        "Injectivity of the Luby-Rackoff PRPs is NOT decided here (length preservation, refusal of wrong lengths and exception freedom are proved); bijectivity of the FFX cipher follows from the proved left inverse on the finite domain {0,1}^n",
+    ], bounded=[]),
     "C16": dict(modules=["crypto"], assumptions=A_ENGINE + [
         "X4: hmac.new(k, m, name).digest() and hashlib.new(name, m).digest() are pure functions of their arguments with digest_size bytes (digest_size > 0 for the non-XOF hashes); SHAKE digest(n) has n bytes",
         "A2 (NOT decided): pairwise distinct outputs for distinct (key, message) -- collision freeness of HMAC, assumed",
